@@ -102,6 +102,27 @@ def check_value(v: str, dialect: str, kind: str, opts: dict):
                 elif a.text != b.text:
                     return (f"non-payload token changed: {b.text!r} -> {a.text!r}", sql)
             return None
+        if kind == "sequence":
+            # the value as two DIFFERENT kinds of quoted text in one statement, in both orders: the statement's tokens must be
+            # those of the two pieces generated alone (state that one piece leaves in the generator must not reach the next)
+            makers = {"str": exp.Literal.string, "raw": lambda x: exp.RawString(this=x), "national": lambda x: exp.National(this=x),
+                      "ident": lambda x: exp.to_identifier(x, quoted=True), "unicode": lambda x: exp.UnicodeString(this=x),
+                      "byte": lambda x: exp.ByteString(this=x)}
+            alone = {}
+            for k, mk in makers.items():
+                try:
+                    alone[k] = [(t.token_type, t.text) for t in toks(dialect, gen(mk(v), dialect, opts))]
+                except Exception:
+                    alone[k] = None   # this kind does not render / lex on its own here: judged (or excused) by its own kind
+            for k1, k2 in itertools.permutations(makers, 2):
+                if not alone[k1] or not alone[k2] or len(alone[k1]) != 1 or len(alone[k2]) != 1:
+                    continue   # a kind this dialect has no literal form for (renders to nothing or to a call) is not a quoted piece here
+                sql = gen(exp.Tuple(expressions=[makers[k1](v), makers[k2](v)]), dialect, opts)
+                got = [(t.token_type, t.text) for t in toks(dialect, sql)]
+                want_mid = alone[k1] + [(TokenType.COMMA, ",")] + alone[k2]
+                if got[1:-1] != want_mid:
+                    return (f"{k1} followed by {k2} in one statement lexes as {[x[1] for x in got[1:-1]]}, generated alone they lex as {[x[1] for x in want_mid]}", sql)
+            return None
         if kind == "comment":
             tree = parse_one("SELECT a, b FROM t WHERE c = 1")
             tree.selects[0].add_comments([v])
@@ -137,7 +158,7 @@ def single_token(dialect, sql, v, types, raw=False, allow_prefix=False):
     return None
 
 
-KINDS = ["str", "ident", "ident_auto", "embedded", "comment", "raw", "national"]
+KINDS = ["str", "ident", "ident_auto", "embedded", "comment", "raw", "national", "sequence"]
 OPTS = {"default": {}, "pretty": {"pretty": True}, "identify": {"identify": True}}
 
 
@@ -173,7 +194,7 @@ def worker(shard, nshards, dialects, atoms, L, Lfull):
                         if kind == "ident_auto":
                             if on == "pretty" or (on == "default" and ln > 2):
                                 continue   # identify=True at every length (that is where the generator quotes by itself)
-                        elif on != "default" and (ln > 2 or kind in ("raw", "national")):
+                        elif on != "default" and (ln > 2 or kind in ("raw", "national", "sequence")):
                             continue
                         res["evaluations"] += 1
                         if nontriv and on == "default" and kind == "str":
